@@ -1,0 +1,173 @@
+// A5
+// SPDX-License-Identifier: Apache-2.0
+// Copyright (c) A5 contributors
+
+//! Simulation hooks, compiled only with the cargo feature `verif` (off by default).
+//!
+//! Nothing in this module changes what the library computes. It gives an external
+//! deterministic simulator three seams:
+//!
+//! * [`yield_point`]: cooperative scheduling points at the places where per-thread or
+//!   process-wide hidden state is read or written. The hook is per thread and unset by
+//!   default, in which case a yield point is a thread-local read and a branch.
+//! * [`SimHashState`]: a `BuildHasher` keyed from a per-thread value, substituted for
+//!   `RandomState` in the two `HashSet`s the library builds, so that a simulated run is a
+//!   function of its seed and so that iteration orders can be varied on purpose.
+//! * [`MemoView`]: a read-only view of which projection memo slots are filled.
+
+use std::cell::Cell;
+use std::hash::{BuildHasher, Hasher};
+
+/// Scheduling-point callback; the argument is one of the [`site`] constants.
+pub type YieldHook = fn(u32);
+
+thread_local! {
+    static YIELD_HOOK: Cell<Option<YieldHook>> = const { Cell::new(None) };
+    static HASH_KEY: Cell<u64> = const { Cell::new(0) };
+}
+
+/// Install (or remove) the calling thread's scheduling-point callback.
+pub fn set_yield_hook(hook: Option<YieldHook>) {
+    YIELD_HOOK.with(|c| c.set(hook));
+}
+
+/// Cooperative scheduling point. No-op unless the calling thread installed a hook.
+#[inline]
+pub fn yield_point(site: u32) {
+    if let Some(hook) = YIELD_HOOK.with(|c| c.get()) {
+        hook(site);
+    }
+}
+
+/// Set the key that `SimHashState::default()` picks up in the calling thread.
+pub fn set_hash_key(key: u64) {
+    HASH_KEY.with(|c| c.set(key));
+}
+
+/// Current hash key of the calling thread.
+pub fn hash_key() -> u64 {
+    HASH_KEY.with(|c| c.get())
+}
+
+/// Identifiers of the scheduling points placed in the library.
+pub mod site {
+    pub const TL_GET: u32 = 0;
+    pub const FWD_ENTRY: u32 = 1;
+    pub const FWD_MID: u32 = 2;
+    pub const FWD_PRE_POLY: u32 = 3;
+    pub const INV_ENTRY: u32 = 4;
+    pub const INV_MID: u32 = 5;
+    pub const INV_PRE_POLY: u32 = 6;
+    pub const FACE_TRI_MISS: u32 = 7;
+    pub const SPH_TRI_MISS: u32 = 8;
+    pub const SPH_TRI_VERTEX: u32 = 9;
+    pub const CRS_GET_VERTEX: u32 = 10;
+    pub const L2C_SAMPLE: u32 = 11;
+    pub const L2C_ESTIMATE: u32 = 12;
+    pub const C2L_MID: u32 = 13;
+    pub const C2B_VERTEX: u32 = 14;
+    pub const CONTAINS_MID: u32 = 15;
+    pub const COMPACT_SET: u32 = 16;
+    pub const COMPACT_PASS: u32 = 17;
+    pub const UNCOMPACT_CELL: u32 = 18;
+    pub const ORIGINS_GET: u32 = 19;
+    pub const PENTAGON_GET: u32 = 20;
+    pub const HILBERT_PATTERN: u32 = 21;
+    pub const S2A_MID: u32 = 22;
+    pub const CHILDREN_ORIGIN: u32 = 23;
+    pub const COUNT: u32 = 24;
+}
+
+/// Names of the scheduling points, indexed by site id.
+pub const SITE_NAMES: [&str; site::COUNT as usize] = [
+    "tl_get",
+    "fwd_entry",
+    "fwd_mid",
+    "fwd_pre_poly",
+    "inv_entry",
+    "inv_mid",
+    "inv_pre_poly",
+    "face_tri_miss",
+    "sph_tri_miss",
+    "sph_tri_vertex",
+    "crs_get_vertex",
+    "l2c_sample",
+    "l2c_estimate",
+    "c2l_mid",
+    "c2b_vertex",
+    "contains_mid",
+    "compact_set",
+    "compact_pass",
+    "uncompact_cell",
+    "origins_get",
+    "pentagon_get",
+    "hilbert_pattern",
+    "s2a_mid",
+    "children_origin",
+];
+
+/// Which memo slots of a `DodecahedronProjection` are filled (read-only probe).
+#[derive(Debug, Clone, Copy, PartialEq, Eq, Default)]
+pub struct MemoView {
+    /// bit i set <=> face-triangle slot i (0..30) is filled
+    pub face: u32,
+    /// bit i of word i/64 set <=> spherical-triangle slot i (0..240) is filled
+    pub spherical: [u64; 4],
+    /// number of CRS vertex lookups performed by this instance so far
+    pub crs_invocations: usize,
+}
+
+/// Seedable replacement for `std::collections::hash_map::RandomState`.
+#[derive(Debug, Clone, Copy)]
+pub struct SimHashState {
+    key: u64,
+}
+
+impl SimHashState {
+    pub fn new() -> Self {
+        SimHashState { key: hash_key() }
+    }
+}
+
+impl Default for SimHashState {
+    fn default() -> Self {
+        Self::new()
+    }
+}
+
+impl BuildHasher for SimHashState {
+    type Hasher = SimHasher;
+
+    fn build_hasher(&self) -> SimHasher {
+        SimHasher { state: self.key }
+    }
+}
+
+/// Hasher produced by [`SimHashState`] (splitmix64 finaliser over the written words).
+#[derive(Debug, Clone, Copy)]
+pub struct SimHasher {
+    state: u64,
+}
+
+fn mix(mut z: u64) -> u64 {
+    z = z.wrapping_add(0x9e3779b97f4a7c15);
+    z = (z ^ (z >> 30)).wrapping_mul(0xbf58476d1ce4e5b9);
+    z = (z ^ (z >> 27)).wrapping_mul(0x94d049bb133111eb);
+    z ^ (z >> 31)
+}
+
+impl Hasher for SimHasher {
+    fn finish(&self) -> u64 {
+        mix(self.state)
+    }
+
+    fn write(&mut self, bytes: &[u8]) {
+        for &b in bytes {
+            self.state = mix(self.state ^ b as u64);
+        }
+    }
+
+    fn write_u64(&mut self, v: u64) {
+        self.state = mix(self.state ^ v);
+    }
+}
